@@ -69,62 +69,65 @@ def ptrValid (b : Int) (ptr : List Int) (nnz : Int) : Bool :=
    | some pl => decide (pl ≤ nnz)
    | none => false)
 
-/-- `io::read_crs(fname, n, ptr, col, val, row_beg, row_end)` (binary.hpp:69-122) -/
+/-- `read_crs` behind the row-range precondition: `ptr.resize`, the three seeks/reads, (repaired: validation),
+the shift by `ptr.front()`, `col/val.resize`, two more reads, the sort loop -/
+def binCrsBody (fixed : Bool) (memLimit : Nat) (vsz : Nat) (dec : Bytes → V) (file : Bytes) (n : Nat) (b e : Int) :
+    Outcome (RawCRS V) :=
+  let chunk := e - b
+  -- `ptr.resize(chunk + 1)`
+  if chunk + 1 < 0 then .error
+  else if (chunk + 1) * 8 > (memLimit : Int) then .error
+  else
+  -- `f.seekg(ptr_beg + row_beg * sizeof(Ptr)); read(f, ptr)`
+  match readAt file ((8 + ofS64 b * 8) % two64) ((chunk + 1).toNat * 8) with
+  | none => .error
+  | some pb =>
+  let ptr0 := (splitEvery 8 (chunk + 1).toNat pb).map (fun x => toS64 (leVal x))
+  -- `f.seekg(ptr_beg + n * sizeof(Ptr)); read(f, nnz)`
+  match readAt file ((8 + n * 8) % two64) 8 with
+  | none => .error
+  | some zb =>
+  let nnz := toS64 (leVal zb)
+  if fixed && !ptrValid b ptr0 nnz then .error
+  else
+  -- `SizeT nnz_beg = ptr.front()`
+  match ptr0.head? with
+  | none => .oob                       -- unrepaired code only: `front()` of an empty vector
+  | some p0 =>
+  let nnzBeg := ofS64 p0
+  let ptr := if nnzBeg = 0 then ptr0 else ptr0.map (fun p => toS64 ((ofS64 p + (two64 - nnzBeg)) % two64))
+  match ptr.getLast? with
+  | none => .oob
+  | some back =>
+  -- `col.resize(ptr.back()); val.resize(ptr.back())`
+  if back < 0 then .error
+  else if back * 8 > (memLimit : Int) then .error
+  else if back * vsz > (memLimit : Int) then .error
+  else
+  let cnt := back.toNat
+  let colBeg := (8 + (n + 1) * 8) % two64
+  match readAt file ((colBeg + nnzBeg * 8) % two64) (cnt * 8) with
+  | none => .error
+  | some cb =>
+  match readAt file ((colBeg + ofS64 nnz * 8 + nnzBeg * vsz) % two64) (cnt * vsz) with
+  | none => .error
+  | some vb =>
+  let col := (splitEvery 8 cnt cb).map (fun x => toS64 (leVal x))
+  let val := (splitEvery vsz cnt vb).map dec
+  match sortRows wrap32 ptr (col.zip val) with
+  | none => .oob
+  | some cv => .ok ⟨chunk.toNat, 0, ptr, cv.map (·.1), cv.map (·.2)⟩
+
+/-- `io::read_crs(fname, n, ptr, col, val, row_beg, row_end)` (binary.hpp:69-122).  The repaired code also
+requires `(ptrdiff_t) n >= 0`, which the other three conditions of `rowRange true` imply. -/
 def binReadCrs (fixed : Bool) (memLimit : Nat) (vsz : Nat) (dec : Bytes → V) (file : Bytes) (rowBeg rowEnd : Int) :
     Outcome (RawCRS V) :=
   match readAt file 0 8 with
   | none => .error
   | some nb =>
-    let n := leVal nb
-    let nI := toS64 n
-    let b := if rowBeg < 0 then 0 else rowBeg
-    let e := if rowEnd < 0 then nI else rowEnd
-    if !(decide (0 ≤ b) && decide (e ≤ nI) && (!fixed || (decide (0 ≤ nI) && decide (b ≤ e)))) then .error
-    else
-    let chunk := e - b
-    -- `ptr.resize(chunk + 1)`
-    if chunk + 1 < 0 then .error
-    else if (chunk + 1) * 8 > (memLimit : Int) then .error
-    else
-    -- `f.seekg(ptr_beg + row_beg * sizeof(Ptr)); read(f, ptr)`
-    match readAt file ((8 + ofS64 b * 8) % two64) ((chunk + 1).toNat * 8) with
+    match rowRange fixed (toS64 (leVal nb)) rowBeg rowEnd with
     | none => .error
-    | some pb =>
-    let ptr0 := (splitEvery 8 (chunk + 1).toNat pb).map (fun x => toS64 (leVal x))
-    -- `f.seekg(ptr_beg + n * sizeof(Ptr)); read(f, nnz)`
-    match readAt file ((8 + n * 8) % two64) 8 with
-    | none => .error
-    | some zb =>
-    let nnz := toS64 (leVal zb)
-    if fixed && !ptrValid b ptr0 nnz then .error
-    else
-    -- `SizeT nnz_beg = ptr.front()`
-    match ptr0.head? with
-    | none => .oob                       -- unrepaired code only: `front()` of an empty vector
-    | some p0 =>
-    let nnzBeg := ofS64 p0
-    let ptr := if nnzBeg = 0 then ptr0 else ptr0.map (fun p => toS64 ((ofS64 p + (two64 - nnzBeg)) % two64))
-    match ptr.getLast? with
-    | none => .oob
-    | some back =>
-    -- `col.resize(ptr.back()); val.resize(ptr.back())`
-    if back < 0 then .error
-    else if back * 8 > (memLimit : Int) then .error
-    else if back * vsz > (memLimit : Int) then .error
-    else
-    let cnt := back.toNat
-    let colBeg := (8 + (n + 1) * 8) % two64
-    match readAt file ((colBeg + nnzBeg * 8) % two64) (cnt * 8) with
-    | none => .error
-    | some cb =>
-    match readAt file ((colBeg + ofS64 nnz * 8 + nnzBeg * vsz) % two64) (cnt * vsz) with
-    | none => .error
-    | some vb =>
-    let col := (splitEvery 8 cnt cb).map (fun x => toS64 (leVal x))
-    let val := (splitEvery vsz cnt vb).map dec
-    match sortRows wrap32 ptr (col.zip val) with
-    | none => .oob
-    | some cv => .ok ⟨chunk.toNat, 0, ptr, cv.map (·.1), cv.map (·.2)⟩
+    | some (b, e) => binCrsBody fixed memLimit vsz dec file (leVal nb) b e
 
 /-- `io::read_dense(fname, n, m, v, row_beg, row_end)` (binary.hpp:133-156) -/
 def binReadDense (fixed : Bool) (memLimit : Nat) (vsz : Nat) (dec : Bytes → V) (file : Bytes) (rowBeg rowEnd : Int) :
@@ -137,12 +140,11 @@ def binReadDense (fixed : Bool) (memLimit : Nat) (vsz : Nat) (dec : Bytes → V)
   | some mb =>
     let n := leVal nb
     let m := leVal mb
-    let nI := toS64 n
-    let b := if rowBeg < 0 then 0 else rowBeg
-    let e := if rowEnd < 0 then nI else rowEnd
-    if !(decide (0 ≤ b) && decide (e ≤ nI) && (!fixed || (decide (0 ≤ nI) && decide (b ≤ e)))) then .error
+    match rowRange fixed (toS64 n) rowBeg rowEnd with
+    | none => .error
+    | some (b, e) =>
     -- repaired code: `n * m * sizeof(Val)` must not overflow `size_t`
-    else if fixed && !(decide (n * m * vsz < two64)) then .error
+    if fixed && !(decide (n * m * vsz < two64)) then .error
     else
     let chunk := e - b
     -- `v.resize(chunk * m)` in `size_t` arithmetic
